@@ -697,8 +697,74 @@ def _unknown_traits(ctx):
            'it is assigned', construct='create_code reserves INVALID')
 
 
+def _allocation_resolved(ctx):
+    """C03.4: the allocation object an allocation record configures - and
+    its assignments point instances to - is found in the tree of the
+    partition the record names, at every load: every definition of the local
+    that reaches the update / the assignment entries is the root allocation
+    of ``self.cell.partitions[<partition of the record>]`` or a step down
+    from it (get_sub_alloc).  An object remembered by name from an earlier
+    load belongs to the partition the allocation had then."""
+    loader = ctx.index.get_class(K.LOADER, 'Loader')
+    func = loader.methods.get('load_allocations')
+    ctx.require(func is not None, 'Loader.load_allocations', rule='C03.4')
+    graph = ctx.cfg(func)
+    rdefs = K.reaching_defs(graph)
+    uses = []
+    for node, call in K.nodes_calling(
+            graph, lambda c: K.is_meth(c, 'update', 'set_traits') and
+            isinstance(K.recv(c), ast.Name)):
+        uses.append((node, K.recv(call).id))
+    for node, call in K.nodes_calling(
+            graph, lambda c: K.is_meth(c, 'append') and
+            'assignments' in (K.recv_text(c) or '')):
+        for arg in call.args:
+            val = K.rexpr(func, arg)
+            if isinstance(val, ast.Tuple) and val.elts and \
+                    isinstance(val.elts[-1], ast.Name):
+                uses.append((node, val.elts[-1].id))
+    ctx.require(uses, 'uses of the allocation object in load_allocations',
+                rule='C03.4', func=func)
+    for node, name in uses:
+        seen, todo, bad = set(), [(node, name)], []
+        rooted = False
+        while todo:
+            at, var = todo.pop()
+            for dnode in sorted(rdefs.get(at, {}).get(var, ()),
+                                key=lambda n: n.id):
+                if dnode in seen:
+                    continue
+                seen.add(dnode)
+                stmt = dnode.ast
+                val = stmt.value if dnode.kind == 'stmt' and isinstance(
+                    stmt, ast.Assign) and len(stmt.targets) == 1 else None
+                if val is None:
+                    bad.append(dnode)
+                elif isinstance(val, ast.Attribute) and \
+                        val.attr == 'allocation' and \
+                        isinstance(val.value, ast.Subscript) and \
+                        N.txt(val.value.value) == 'self.cell.partitions':
+                    rooted = True
+                elif isinstance(val, ast.Call) and \
+                        K.is_meth(val, 'get_sub_alloc') and \
+                        isinstance(K.recv(val), ast.Name):
+                    todo.append((dnode, K.recv(val).id))
+                elif isinstance(val, ast.Name):
+                    todo.append((dnode, val.id))
+                else:
+                    bad.append(dnode)
+        ctx.ob('C03.4', func, node, rooted and not bad,
+               'the allocation object is resolved from the partition the '
+               'record names at every load (root allocation of '
+               'self.cell.partitions[..] and get_sub_alloc steps only)%s' % (
+                   '' if not bad else ' - also bound by: %s' %
+                   bad[0].text(60)),
+               construct='allocation resolved for %s' % node.text(40))
+
+
 def check(ctx):
     nz, server, put = _admission(ctx)
+    _allocation_resolved(ctx)
     # shared with C01.6: the lease that the lifetime test reads is only
     # neutralised for the duration of a verbatim restore
     from . import c01
